@@ -736,7 +736,11 @@ func unrelatedChurn(t *table.Table, kinds []string) error {
 			simrt.Yield("churn.snapshot")
 			err = t.DelRewriter(len(snap.Rewriters) - 1)
 		case "agg":
-			a, aerr := aggregator.New("sum", m, "zzzz.out", false, 60, 120, false, t.In)
+			am, merr := matcher.New("", "", "", "", `^zzzz\.never\.(.*)`, "")
+			if merr != nil {
+				return merr
+			}
+			a, aerr := aggregator.New("sum", am, "zzzz.out.$1", false, 60, 120, false, t.In)
 			if aerr != nil {
 				return aerr
 			}
